@@ -25,7 +25,9 @@
                rot_impl_error   n2 q<>0 -> every entry of rot_impl q is within 2*|n2 q - 1| (< 2e-14)
                                 of the entry of rot q  (mdist_le)
    reduced     n2_r_eq qmul_r_eq qinv_r_eq rot_r_eq rot_unit_r_eq unit_band_r_eq rot_impl_r_eq
-               vadd_r_eq mvmul_r_eq qred_eq vred_eq
+               vadd_r_eq mvmul_r_eq qred_eq vred_eq rotNd_r_eq qinv_n_eq
+               apply_parts_r_eq      n2 q<>0 -> apply_parts_r (rot_parts_r q) v =v= mvmul (rot_impl q) v
+               apply_parts_inv_r_eq  n2 q<>0 -> apply_parts_r (rot_parts_inv_r q) v =v= mvmul (rot_impl (qinv q)) v
    tolerance   close_abs_proper etc.: the boolean comparisons respect ==                      *)
 From Coq Require Import QArith Qabs Qminmax Qreduction Qfield Bool List Setoid Morphisms Lia Lqa.
 From KV.Model Require Import MQV.
@@ -449,3 +451,59 @@ Proof.
 Qed.
 Lemma close_abs_spec tol scale a b : close_abs tol scale a b = true <-> Qabs (a - b) <= tol * scale.
 Proof. apply Qle_bool_iff. Qed.
+
+(* ------------------------------------------------------------------ numerator / denominator form *)
+#[export] Instance rotNd_proper : Proper (Qeq ==> qeq ==> meq) rotNd.
+Proof.
+  intros d d' Hd a b (H1 & H2 & H3 & H4). unfold rotNd, meq. cbv zeta. cbn [m00 m01 m02 m10 m11 m12 m20 m21 m22].
+  rewrite Hd, H1, H2, H3, H4. conj; reflexivity.
+Qed.
+Lemma rotNd_r_eq d q : rotNd_r d q =m= rotNd d q.
+Proof.
+  unfold rotNd_r, rotNd, meq. cbv zeta. cbn [m00 m01 m02 m10 m11 m12 m20 m21 m22].
+  conj; unr_all; ring.
+Qed.
+Lemma rot_unit_rotNd q : rot_unit q = rotNd 1 q.
+Proof. reflexivity. Qed.
+Lemma rot_rotNd q : ~ n2 q == 0 -> forall v,
+  mvmul (rot q) v =v= mkV (vx (mvmul (rotNd (n2 q) q) v) / n2 q) (vy (mvmul (rotNd (n2 q) q) v) / n2 q) (vz (mvmul (rotNd (n2 q) q) v) / n2 q).
+Proof.
+  intros NZ v. unfold rot, rotNd. cbv zeta. set (n := n2 q) in *. clearbody n.
+  destruct q as [w x y z], v as [a b c]. unfold mvmul, veq. cbn [qw qx qy qz vx vy vz m00 m01 m02 m10 m11 m12 m20 m21 m22].
+  conj; field; assumption.
+Qed.
+
+Lemma qinv_n_eq q : qinv_n q =q= qinv q.
+Proof. unfold qinv_n, qinv, qeq. cbv zeta. cbn [qw qx qy qz]. conj; rewrite n2_r_eq; reflexivity. Qed.
+
+Lemma apply_parts_r_eq q v : ~ n2 q == 0 -> apply_parts_r (rot_parts_r q) v =v= mvmul (rot_impl q) v.
+Proof.
+  intros NZ. unfold rot_parts_r, rot_impl, unit_band. cbv zeta. rewrite n2_r_eq.
+  destruct (Qlt_bool (Qabs (n2 q - 1)) band).
+  - unfold apply_parts_r. cbn [fst snd]. rewrite mvmul_r_eq, rotNd_r_eq. change (rot_unit q) with (rotNd 1 q).
+    unfold veq. cbn [vx vy vz]. conj; field.
+  - unfold apply_parts_r. cbn [fst snd]. rewrite mvmul_r_eq, rotNd_r_eq, (rot_rotNd q NZ v), !n2_r_eq. reflexivity.
+Qed.
+
+Lemma unit_band_inv q : ~ n2 q == 0 -> unit_band (qinv q) = Qlt_bool (Qabs (/ n2 q - 1)) band.
+Proof. intros NZ. unfold unit_band. rewrite (n2_inv q NZ). reflexivity. Qed.
+
+Lemma apply_parts_inv_r_eq q v : ~ n2 q == 0 -> apply_parts_r (rot_parts_inv_r q) v =v= mvmul (rot_impl (qinv q)) v.
+Proof.
+  intros NZ. unfold rot_parts_inv_r, rot_impl. cbv zeta. rewrite (unit_band_inv q NZ), n2_r_eq.
+  unfold apply_parts_r. cbn [fst snd].
+  destruct (Qlt_bool (Qabs (/ n2 q - 1)) band).
+  - rewrite mvmul_r_eq, rotNd_r_eq, rmul_eq, !n2_r_eq.
+    revert NZ. destruct q as [w x y z], v as [a b c]. unf. unfold rotNd. cbv zeta.
+    cbn [qw qx qy qz vx vy vz m00 m01 m02 m10 m11 m12 m20 m21 m22]. intros NZ.
+    conj; field; assumption.
+  - rewrite mvmul_r_eq, rotNd_r_eq, !n2_r_eq.
+    pose proof (n2_inv_nonzero q NZ) as NI. revert NZ NI. destruct q as [w x y z], v as [a b c]. unf. unfold rotNd. cbv zeta.
+    cbn [qw qx qy qz vx vy vz m00 m01 m02 m10 m11 m12 m20 m21 m22]. intros NZ NI.
+    conj; field; conj; assumption.
+Qed.
+
+#[export] Instance apply_parts_r_proper : Proper (eq ==> veq ==> veq) apply_parts_r.
+Proof.
+  intros md md' <- a b H. unfold apply_parts_r. cbv zeta. rewrite !mvmul_r_eq, H. reflexivity.
+Qed.
